@@ -260,6 +260,44 @@ def first_ids(data):
     return out
 
 
+def mutated_spec(spec):
+    """the value a loaded object denotes after the CALLER mutated it in place with `mutate_inplace` (None: the
+    loaded object is immutable or the mutation is not defined for it)"""
+    if spec["t"] == "json":
+        v, py = spec["v"], spec.get("py")
+        if py not in (None, "tuple", "intkeys"):
+            return None
+        if isinstance(v, list):
+            return {"t": "json", "v": v + ["mutated in place"]}
+        if isinstance(v, dict):
+            return {"t": "json", "v": dict(v, mutated=1)}
+        return None
+    if spec["t"] in ("frame", "series") and spec["index"]:
+        first = spec["index"][0]
+        keep = [r for r, lab in enumerate(spec["index"]) if lab != first]
+        out = dict(spec, index=[spec["index"][r] for r in keep])
+        if spec.get("default_index"):
+            out["default_index"] = False
+            out["index"] = [[r] for r in keep]
+        if spec["t"] == "series":
+            out["values"] = [spec["values"][r] for r in keep]
+        else:
+            out["cols"] = [[c, [v[r] for r in keep]] for c, v in spec["cols"]]
+        return out
+    return None
+
+
+def mutate_inplace(x):
+    """what a careless caller does to the object `Artifact.load` handed out"""
+    import pandas as pd
+    if isinstance(x, list):
+        x.append("mutated in place")
+    elif isinstance(x, dict):
+        x["mutated"] = 1
+    elif isinstance(x, (pd.DataFrame, pd.Series)):
+        x.drop(index=x.index[0], inplace=True)
+
+
 def _numeric(vals):
     return all(isinstance(v, (int, float)) and not isinstance(v, bool) and float(v) * SCALE == int(float(v) * SCALE) for v in vals)
 
@@ -513,6 +551,28 @@ def _run(case):
                     art.remove(op[1])
                 elif kind == "load":
                     rec["out"] = view(art.load(op[1]))
+                elif kind == "mutate":       # the caller mutates the loaded object in place (only when it is what the generator assumed)
+                    x = art.load(op[1])
+                    if not art.filter_terms and json.dumps(canon(x), sort_keys=True) == cstr[op[2]] and mutated_spec(data[op[2]]) is not None:
+                        mutate_inplace(x)
+                        rec["out"] = "mutated"
+                    else:
+                        rec["out"] = view(x)
+                elif kind == "restore":      # the caller hands the very object `load` returned (mutated in place or not) back to replace
+                    x = art.load(op[1])
+                    ok_src = not art.filter_terms and json.dumps(canon(x), sort_keys=True) == cstr[op[2]]
+                    if not ok_src:
+                        rec["out"] = view(x)               # not what the generator assumed (or a filtered view): a plain load
+                    else:
+                        if op[3] is not None:
+                            mutate_inplace(x)
+                        rec["after_load"] = True
+                        art.replace(op[1], x)
+                        rec["out"] = "restored"
+                elif kind == "mutate-keys":  # the caller edits, in place, the list `art.keys` handed out (his own copy: F36)
+                    ks = art.keys
+                    {"remove-ks": lambda: KS in ks and ks.remove(KS), "reverse": ks.reverse, "clear": ks.clear,
+                     "ghost": lambda: ks.append("ghost.key")}[op[1]]()
                 elif kind == "clear":
                     art.clear_cache()
                 elif kind == "reopen":
@@ -864,9 +924,133 @@ class C19(Prop):
             ts.append(["draws", [], "in"])        # `draw in []`: the constructor refuses
         return ts
 
+    # ---- lessons 12-13: exact repeats after intervening operations (other artifact / other kind), heterogeneous histories
+    def _retyped(self, rng, spec):
+        """the same table carried differently: another dtype of the value columns, as a Series, as JSON rows"""
+        how = rng.choice(["float", "int", "str", "float32", "series", "json-rows", "json-dict", "category"])
+        n = len(spec["index"])
+        if how == "json-rows":
+            return {"t": "json", "v": [list(r) for r in spec["index"]]}
+        if how == "json-dict":
+            return {"t": "json", "v": {"rows": n, "names": [str(x) for x in spec["names"]]}}
+        idx = {k: spec[k] for k in ("names", "index", "ldtypes", "default_index") if k in spec}
+        if how == "series":
+            return dict({"t": "series", "name": rng.choice(["value", "value", "rate"]), "values": [rng.randint(0, 6) for _ in range(n)]}, **idx)
+        vals = {"float": [rng.randint(0, 80) / 8 for _ in range(n)], "float32": [rng.randint(0, 80) / 8 for _ in range(n)],
+                "int": [rng.randint(0, 9) for _ in range(n)], "str": [rng.choice(["p", "q"]) for _ in range(n)],
+                "category": [rng.choice(["p", "q"]) for _ in range(n)]}[how]
+        out = dict({"t": "frame", "cols": [["value", vals]] + ([["draw_0", [rng.randint(0, 9) for _ in range(n)]]] if rng.random() < 0.4 else [])}, **idx)
+        if how in ("float32", "category"):
+            out["dtypes"] = {"value": how}
+        return out
+
+    def _gen_history(self, rng):
+        """dedicated mode: EPISODES `X ; k intervening operations ; X again, verbatim` on one or two live artifacts (one
+        filtered, one not; one with a draw filter), X and the intervening operations ranging over every operation
+        (write / remove / replace / load / clear / filtered load / in-place mutation of a loaded object / reopen), the
+        intervening ones by the OTHER live artifact or of another kind; the same key carried as different kinds of
+        data and dtypes along the history; every refused operation tried again"""
+        pool = rng.sample(FLAT, rng.randint(2, 3)) + (rng.sample(UNUSUAL, 1) if rng.random() < 0.3 else [])
+        row, pref = self._acting(rng)
+        kinds = rng.choice([([], row), (row, []), ([["draws", [rng.randint(0, 1)], "eq"]], []), ([], [["draws", [0, 1], "in"]]), ([], [])])
+        terms0, terms1 = kinds
+        data, ops, hold = [], [], {}
+        two = rng.random() < 0.75
+        opened = [False]
+
+        def D(spec):
+            data.append(spec)
+            return len(data) - 1
+
+        def G():
+            return self._good(rng, pref)
+
+        def key(p_present=0.8):
+            have = [k for k in pool if k in hold]
+            if have and rng.random() < p_present:
+                return rng.choice(have)
+            return rng.choice(pool)
+
+        def one(k=None, allow_switch=False):
+            """one operation (as a list of ops, because of `switch`), the shadow `hold` updated as if it were accepted"""
+            k = k or key()
+            r = rng.random()
+            if r < 0.16:
+                d = D(G())
+                hold.setdefault(k, d)
+                return [["write", k, d]]
+            if r < 0.28:
+                hold.pop(k, None)
+                return [["remove", k]]
+            if r < 0.46:
+                if k in hold and rng.random() < 0.5 and data[hold[k]]["t"] in ("frame", "series"):
+                    d = D(self._retyped(rng, data[hold[k]]))                 # the same table, carried differently
+                elif rng.random() < 0.2:
+                    d = D({"t": "zerorow", "v": rng.choice(ZEROROW)} if rng.random() < 0.5 else {"t": "badframe", "v": rng.choice(BADFRAME)})
+                    return [["replace", k, d]]
+                elif rng.random() < 0.1:
+                    return [["replace", k, rng.choice([None, D({"t": "unser", "v": rng.choice(UNSER)})])]]
+                else:
+                    d = D(G())
+                if k in hold:
+                    hold[k] = d
+                return [["replace", k, d]]
+            if r < 0.64:
+                return [["load", k]]
+            if r < 0.69:
+                return [["clear"]]
+            if r < 0.72:
+                return [["mutate-keys", rng.choice(["remove-ks", "ghost", "clear", "reverse"])]]
+            if r < 0.80:
+                return [["fload", k, self._terms(rng)]]
+            if r < 0.86 and k in hold and mutated_spec(data[hold[k]]) is not None:
+                return [["mutate", k, hold[k], D(mutated_spec(data[hold[k]]))]]
+            if r < 0.91 and k in hold and data[hold[k]]["t"] in STORABLE:
+                src = hold[k]
+                m = D(mutated_spec(data[src])) if mutated_spec(data[src]) is not None and rng.random() < 0.5 else None
+                if m is not None:
+                    hold[k] = m
+                return [["restore", k, src, m]]
+            if r < 0.95:
+                return [["reopen", rng.choice([terms0, terms0, []])]]
+            return [["load", k]]
+
+        def other(k):
+            """the same kinds of operation through the OTHER live artifact (or, with one artifact, of another kind)"""
+            out = []
+            if two:
+                out.append(["switch", terms1 if not opened[0] else []])
+                opened[0] = True
+            for _ in range(rng.randint(1, 3)):
+                out += one(k if rng.random() < 0.75 else None)
+            if two:
+                out.append(["switch", []])
+            return out
+
+        d0 = D(G())
+        ops.append(["write", pool[0], d0])
+        hold[pool[0]] = d0
+        target = rng.choice([10, 14, 18, 24])
+        while len(ops) < target:
+            k = key()
+            x = one(k)
+            ops += x
+            ops += other(k)
+            ops += [list(o) for o in x]                       # X again, verbatim
+            if rng.random() < 0.3:
+                ops += other(k) if rng.random() < 0.5 else [["clear"]]
+                ops += [list(o) for o in x]                   # and a third time
+        case = {"probe": rng.choice(["self", "fresh"]), "terms": terms0, "data": data, "ops": ops}
+        if rng.random() < 0.5:
+            case["pathobj"] = True
+        return case
+
     def generate(self, rng: random.Random, i: int, tier: str):
-        if rng.random() < 0.1:
+        r0 = rng.random()
+        if r0 < 0.1:
             return self._gen_sim(rng)
+        if r0 < 0.32:
+            return self._gen_history(rng)
         nested = rng.random() < 0.35
         pool = rng.sample(FLAT, rng.randint(2, 4)) + (rng.sample(NEST, rng.randint(2, 4)) if nested else [])
         if rng.random() < 0.4:
@@ -930,7 +1114,7 @@ class C19(Prop):
             elif r < 0.48:
                 ops.append(["replace", present(), D(G())])
             elif r < 0.52:
-                ops.append(["clear"])
+                ops.append(["clear"] if rng.random() < 0.6 else ["mutate-keys", rng.choice(["remove-ks", "ghost", "clear", "reverse"])])
                 if two_live:
                     ops.append(["switch", self._acting(rng)[0] if rng.random() < 0.4 else []])
             elif r < 0.57:
@@ -1018,6 +1202,8 @@ class C19(Prop):
                     ops.append(["remove", KS] if rng.random() < 0.5 else ["replace", KS, D(G())])
                 else:
                     ops.append(["write", KS, D(G())] if rng.random() < 0.5 else ["load", KS])
+                if rng.random() < 0.45:                 # … and the same operation again, verbatim (same key, same value)
+                    ops.append(list(ops[-1]))
         case = {"probe": rng.choice(["self", "fresh"]), "terms": acting, "data": data, "ops": ops}
         if rng.random() < 0.5:
             case["pathobj"] = True        # the constructor is given a pathlib.Path
@@ -1119,6 +1305,47 @@ class C19(Prop):
         for c in out:
             if not any(op[0] == "fload" for op in c["ops"]):
                 c["fullobs"] = True
+        # lessons 12-13: every operation X, then Y through the OTHER live artifact (filtered / unfiltered / draw filter), then X
+        # again verbatim; the caller mutating a loaded object in place; the same key as frame -> list -> Series -> frame
+        FI = {"t": "frame", "names": ["i", "j"], "index": [[1, 5], [2, 6], [3, 5]], "cols": [["value", [1, 2, 3]], ["draw_0", [4, 5, 6]]]}
+        FF = {"t": "frame", "names": ["i", "j"], "index": [[1, 5], [2, 6], [3, 5]], "cols": [["value", [1.5, 2.5, 3.5]], ["draw_0", [4, 5, 6]]], "dtypes": {"value": "float32"}}
+        FS = {"t": "frame", "names": ["i", "j"], "index": [[1, 5], [2, 6], [3, 5]], "cols": [["value", ["1", "2", "3"]]]}
+        LJ = J([[1, 5], [2, 6], [3, 5]])
+        XS = (["load", "r.k"], ["write", "r.k", 1], ["replace", "r.k", 1], ["replace", "r.k", 6], ["clear"], ["remove", "r.k"],
+              ["write", "r.k", 2], ["fload", "r.k", [T("j", "eq", 5)]], ["replace", "r.k", 3], ["replace", "r.k", 4], ["replace", "r.k", 0])
+        for cfg, (mode, t0, t1) in enumerate((("self", [], [T("i", "ge", 2)]), ("fresh", [T("i", "ge", 2)], []), ("self", [["draws", [0], "eq"]], []),
+                                              ("fresh", [], [["draws", [1], "eq"]]))):
+            ops = [["write", "r.k", 0], ["load", "r.k"]]
+            first = True
+            YS = ([["load", "r.k"]], [["replace", "r.k", 5]], [["remove", "r.k"], ["write", "r.k", 0]], [["clear"], ["load", "r.k"]])
+            for xi, X in enumerate(XS[cfg % 2::2]):      # half of the operations per configuration and half of the intervening ones per
+                for Y in YS[(xi + cfg // 2) % 2::2]:     # operation (cost); over the four configurations every pair occurs
+                    if (X[0], Y[0][0]) in (("clear", "load"), ("fload", "remove")):
+                        continue
+                    ops += [list(X), ["switch", t1 if first else []]] + [list(y) for y in Y] + [["switch", []], list(X)]
+                    first = False
+            out.append({"probe": mode, "terms": t0, "data": [FI, FF, S, LJ, FS, J({"k": 1}), Z], "ops": ops})
+        MJ, MF = J([1, 2]), F1
+        out.append({"probe": "self", "terms": [], "data": [MJ, mutated_spec(MJ), MF, mutated_spec(MF), Z, J({"a": 1}), mutated_spec(J({"a": 1}))],
+                    "ops": [["write", "m.j", 0], ["write", "m.f", 2], ["write", "m.d", 5], ["mutate", "m.j", 0, 1], ["load", "m.j"], ["mutate", "m.f", 2, 3],
+                            ["load", "m.f"], ["mutate", "m.d", 5, 6], ["replace", "m.f", 4], ["load", "m.f"], ["replace", "m.j", None], ["load", "m.j"],
+                            ["mutate", "m.j", 0, 1], ["clear"], ["load", "m.j"], ["load", "m.d"], ["mutate", "m.f", 2, 3], ["replace", "m.f", 4],
+                            ["reopen", []], ["load", "m.f"], ["mutate", "m.f", 2, 3], ["switch", []], ["load", "m.f"], ["replace", "m.f", 4], ["switch", []],
+                            ["load", "m.f"], ["replace", "m.f", 4], ["load", "m.f"], ["restore", "m.j", 0, None], ["load", "m.j"], ["restore", "m.j", 0, 1],
+                            ["load", "m.j"], ["restore", "m.f", 2, 3], ["reopen", []], ["load", "m.f"], ["restore", "m.d", 5, None], ["restore", "m.d", 5, 6]]})
+        # every refused operation, then the same operation again
+        rf = [["write", "q.a", 0], ["write", "q.a", 1], ["write", "q.b", None], ["write", "bad", 1], ["write", "p/q.r", 1], ["write", "q.b", 2], ["write", "q.b", 3],
+              ["write", "q.b", 4], ["remove", "q.z"], ["replace", "q.z", 1], ["load", "q.z"], ["replace", "q.a", None], ["replace", "q.a", 2], ["replace", "q.a", 3],
+              ["replace", "q.a", 4], ["remove", KS], ["replace", KS, 1], ["write", KS, 1], ["reopen", [["draws", [0], "eq"], ["draws", [1], "eq"]]],
+              ["fload", "q.a", [["draws", [], "in"]]]]
+        out.append({"probe": "self", "terms": [T("i", "ge", 2)], "data": [FI, J([1]), U, Z, B],
+                    "ops": [rf[0]] + [list(o) for x in rf[1:] for o in (x, x)] + [["load", "q.a"]]})
+        # F36 (repaired): the caller edits the list art.keys returned, then every kind of operation
+        out.append({"probe": "self", "terms": [], "data": [J([1]), J([2]), F1, Z],
+                    "ops": [["write", "a.b", 0], ["mutate-keys", "remove-ks"], ["write", "a.c", 1], ["reopen", []], ["mutate-keys", "clear"], ["write", "a.d", 2],
+                            ["load", "a.b"], ["mutate-keys", "ghost"], ["remove", "ghost.key"], ["load", "ghost.key"], ["remove", "a.c"], ["mutate-keys", "reverse"],
+                            ["replace", "a.b", 2], ["mutate-keys", "clear"], ["replace", "a.b", 3], ["mutate-keys", "remove-ks"], ["remove", KS], ["switch", []],
+                            ["mutate-keys", "clear"], ["write", "a.e", 0], ["switch", []], ["load", "a.d"]]})
         # the ArtifactManager path in a real simulation: draw 0 (falsy), no draw, a term on a present / an absent column
         for k, (draw, term, style) in enumerate(((0, ["year", "ge", 2], "tight"), (None, ["sex", "eq", "m"], "spaced"),
                                                  (2, ["location", "eq", "x"], "spaced"), (1, None, "spaced"))):
@@ -1187,6 +1414,16 @@ class C19(Prop):
                 L.append(f"op {k} k={enc_key(op[1])} {'none' if op[2] is None else op[2]}")
             elif k in ("load", "remove"):
                 L.append(f"op {k} k={enc_key(op[1])}")
+            elif k == "mutate":
+                mut = obs["ops"][len([x for x in L if x.startswith("obs ")]) - 1]["out"] == "mutated"
+                L.append(f"op mutate k={enc_key(op[1])} {op[3]}" if mut else f"op load k={enc_key(op[1])}")
+            elif k == "restore":
+                res = obs["ops"][len([x for x in L if x.startswith("obs ")]) - 1]
+                L.append(f"op load k={enc_key(op[1])}")
+                if res["out"] == "restored" or (res["out"] == "err" and res.get("after_load")):
+                    L[-1] = f"op restore k={enc_key(op[1])} {op[2] if op[3] is None else op[3]}"
+            elif k == "mutate-keys":
+                L.append(f"op mutkeys {op[1]}")
             elif k == "clear":
                 L.append("op clear")
             elif k in ("reopen", "switch"):
@@ -1264,8 +1501,8 @@ class C19(Prop):
             r = replies[pos]
             where = f"op #{i} {op[:2]}"
             out = rec["out"]
-            if out in ("ok", "err", "ctor-err"):
-                want = {"ok": "ok", "err": "rejected", "ctor-err": "ctor-err"}[out]
+            if out in ("ok", "err", "ctor-err", "mutated", "restored"):
+                want = {"ok": "ok", "err": "rejected", "ctor-err": "ctor-err", "mutated": "ok", "restored": "ok"}[out]
                 if r != want:
                     dis.append(f"{where}: impl {out} ({rec.get('exc')}) model {r}")
             else:
@@ -1308,9 +1545,19 @@ class C19(Prop):
         def fail(i, key, base, msg):
             fails.append({"sig": self._sig(case, i, key, base), "msg": f"op #{i} {case['ops'][i][:2] if i >= 0 else 'init'}: {msg}"})
 
-        def handed_out(i, k, terms, got, exp, ever, stale):
+        dirty = set()       # (slot, key): the caller mutated, in place, the object this artifact's cache holds for the key
+
+        def handed_out(i, k, terms, got, exp, ever, stale, slot=None):
             """what an artifact with `terms` hands out for key k: a view of what is stored (of what was stored at some
             time, for a live artifact whose key list and cache are older than the last mutation by the other one)"""
+            if (slot, k) in dirty and got != "err":
+                if case.get("strict"):      # candidate `cache-aliases-returned-object`: replay cases only
+                    if k in exp and got != ["data", ["d", exp[k]]] and not (got[0] == "filtered" and got[1] == canons[exp[k]]):
+                        fails.append({"sig": "cache-aliases-returned-object",
+                                      "msg": f"op #{i}: after the caller mutated the object load({k}) returned, load({k}) hands out the mutated object, not what was written"})
+                else:
+                    tol.append("caller-mutated-cache")
+                return
             if got == "err":
                 if not stale and k in exp and data[exp[k]]["t"] != "json" and expected_view(data[exp[k]], terms) == "raises":
                     # recorded finding F29: a stored Series cannot be loaded under a draw filter that does not name it
@@ -1331,7 +1578,7 @@ class C19(Prop):
                     return
             fail(i, k, "invented-data", f"{k}: a live artifact hands out {json.dumps(got)[:200]}, which was never written under that key")
 
-        def check_state(i, o, exp, terms, stale, corrupt, ever):
+        def check_state(i, o, exp, terms, stale, corrupt, ever, slot=None):
             if not o.get("forms_ok", True):
                 fail(i, None, "call-forms-disagree", "iter(art) / `in` / repr(art) disagree with art.keys")
             if corrupt:          # two live artifacts both wrote: only "no invented data" is claimed
@@ -1363,18 +1610,23 @@ class C19(Prop):
                 elif k in exp and got != ["d", exp[k]]:
                     fail(i, k, "load-differs-from-written", f"{k}: loads {got}, last written data {exp[k]}")
             for k, got in (o.get("self") or {}).items():      # the same keys through the acting artifact and its filter terms
-                handed_out(i, k, terms, got, exp, ever, stale)
+                handed_out(i, k, terms, got, exp, ever, stale, slot)
 
         exp = {}                    # key -> data id (first equal id): what the property says is stored
         ever = {}                   # key -> every data id a write / replace tried to store under it
         terms_of = {0: list(case.get("terms") or [])}      # filter terms of the live artifacts (slot 0 acts first)
         fresh_view = {0: True}      # slot -> its key list and cache have seen every mutation so far
         act, corrupt = 0, False
-        check_state(-1, obs["init"], exp, terms_of[act], False, False, ever)
+        check_state(-1, obs["init"], exp, terms_of[act], False, False, ever, act)
         prev = obs["init"]
         for i, (op, rec) in enumerate(zip(case["ops"], obs["ops"])):
             kind, out, o = op[0], rec["out"], rec["obs"]
-            key = op[1] if len(op) > 1 and kind not in ("reopen", "switch") else None
+            if kind == "restore":       # load, then replace with the very object that was loaded (mutated in place or not)
+                if out == "restored" or rec.get("after_load"):
+                    kind, op, out = "replace", ["replace", op[1], op[2] if op[3] is None else op[3]], ("ok" if out == "restored" else "err")
+                else:
+                    kind = "load"
+            key = op[1] if len(op) > 1 and kind not in ("reopen", "switch", "mutate-keys") else None
             stale = not fresh_view[act]
             cur_terms = terms_of[act]
             must_reject = None      # None: no requirement
@@ -1395,7 +1647,7 @@ class C19(Prop):
                 must_reject = key not in exp
                 if not must_reject:
                     new_exp.pop(key)
-            elif kind in ("load", "fload"):
+            elif kind in ("load", "fload", "mutate"):
                 must_reject = key not in exp and key != KS
             accepted = out not in ("err", "ctor-err")
             judged = not stale and not corrupt         # the property speaks about an artifact that has seen the whole history
@@ -1404,11 +1656,13 @@ class C19(Prop):
                     fail(i, key, "accepts-invalid-op", f"{kind} accepted although it must be refused")
                 if not must_reject and not accepted:
                     fail(i, key, "valid-op-refused", f"valid {kind} refused with {rec.get('exc')}")
-            if kind == "load" and key != KS and not corrupt:
+            if kind in ("load", "mutate") and key != KS and not corrupt:
                 if must_reject and accepted and judged:
                     fail(i, key, "accepts-invalid-op", f"load of a key never written returns {str(out)[:80]}")
+                elif out == "mutated":
+                    dirty.add((act, key))
                 elif accepted or (judged and not must_reject):
-                    handed_out(i, key, cur_terms, out if accepted else "err", exp, ever, stale)
+                    handed_out(i, key, cur_terms, out if accepted else "err", exp, ever, stale, act)
             if kind == "fload" and out != "ctor-err" and not corrupt:      # a third, freshly opened artifact: never stale
                 if must_reject and accepted:
                     fail(i, key, "accepts-invalid-op", f"filtered load of a key never written returns {str(out)[:80]}")
@@ -1422,12 +1676,22 @@ class C19(Prop):
                 fail(i, key, "accepts-invalid-op", f"an Artifact with terms {op[-1]} was constructed")
             n_before = len(fails)
             # refused operations, and operations that only read, leave artifact and file as they were
-            if not accepted or kind in ("load", "clear", "reopen", "fload", "switch"):
+            if not accepted and not judged and kind in MUTATING and (self._changes(prev, o) or prev["groups"] != o["groups"]):
+                # a live artifact with an OLD key list rewrote the key space before its operation failed (by design of the
+                # in-memory key list; nothing is claimed for it) – from here on as after a write by a stale artifact
+                corrupt = True
+            elif not accepted or kind in ("load", "clear", "reopen", "fload", "switch", "mutate", "mutate-keys"):
                 base = "refused-op-changed-state" if not accepted else "read-op-changed-state"
                 what = f"{'refused ' if not accepted else ''}{kind}"
-                before = dict(prev, keys=o["keys"]) if kind == "switch" else prev      # another artifact, another key list
+                # another artifact object (switch) or a re-read key list (reopen): the reported key list is not "state that changed"
+                before = dict(prev, keys=o["keys"]) if kind in ("switch", "reopen") else prev
                 for k, msg in self._changes(before, o).items():
-                    fail(i, k, base, f"{what}: {msg}")
+                    if kind == "mutate-keys":     # F36: the list `keys` returns is the caller's own copy
+                        fails.append({"sig": "keys-list-aliased", "msg": f"op #{i}: the caller edited the list art.keys returned ({op[1]}) and the artifact changed: {msg}"})
+                    else:
+                        fail(i, k, base, f"{what}: {msg}")
+                if kind == "mutate-keys" and o["keys"] != prev["keys"]:
+                    fails.append({"sig": "keys-list-aliased", "msg": f"op #{i}: the caller edited the list art.keys returned ({op[1]}); art.keys was {prev['keys']}, is {o['keys']}"})
                 # bare groups: the parent group /type/name of a three-part key may be created by a refused write
                 own = lambda g: key is not None and well_formed(key) and parts(g) != parts(key) and parts(key)[:len(parts(g))] == parts(g)   # noqa: E731
                 g0, g1 = [g for g in prev["groups"] if not own(g)], [g for g in o["groups"] if not own(g)]
@@ -1441,6 +1705,10 @@ class C19(Prop):
                         fresh_view[slot] = False
                 if judged and not must_reject:
                     exp = new_exp
+            if kind in ("clear", "reopen") and accepted:
+                dirty -= {x for x in dirty if x[0] == act}
+            if kind in ("remove", "replace") and accepted:
+                dirty.discard((act, key))
             if kind == "reopen" and accepted:
                 terms_of[act] = list(op[1])
                 fresh_view[act] = True
@@ -1450,7 +1718,7 @@ class C19(Prop):
                     terms_of[other] = list(op[1])
                     fresh_view[other] = True
                 act = other
-            check_state(i, o, exp, terms_of[act], not fresh_view[act], corrupt, ever)
+            check_state(i, o, exp, terms_of[act], not fresh_view[act], corrupt, ever, act)
             if not corrupt and (len(fails) > n_before or (kind in MUTATING and judged and accepted == bool(must_reject))):
                 # adopt the observed state as the new baseline, so that one defect is reported where it happens
                 # and what follows is judged on its own
@@ -1725,7 +1993,13 @@ class C19(Prop):
             if kind in ("write", "replace", "remove") and acting:
                 t.append(("ok:" if ok else "refused:") + kind + "-under-terms")
             t.append(("ok:" if ok else "refused:") + kind)
-            key = op[1] if len(op) > 1 and kind not in ("reopen", "switch") else None
+            key = op[1] if len(op) > 1 and kind not in ("reopen", "switch", "mutate-keys") else None
+            if kind == "mutate":
+                t.append("mutate:" + ("in-place" if out == "mutated" else "not-applicable"))
+            if kind == "mutate-keys":
+                t.append("caller-edits-returned-key-list:" + op[1])
+            if kind == "restore":
+                t.append("restore:" + ("loaded-object-handed-back" + ("-mutated" if op[3] is not None else "") if out == "restored" else "not-applicable"))
             if key is not None and well_formed(key) and enc_key(key) != key:
                 t.append("key:unusual-characters")
             if kind == "reopen":
